@@ -1820,7 +1820,8 @@ def tt_loglikelihood(
 
     assert isinstance(Model, ttb.ktensor), "Model must be a ktensor"
 
-    Model.normalize(weight_factor=0, normtype=1)
+    # Work on a copy: the caller's (possibly still iterating) model must not change
+    Model = Model.copy().normalize(weight_factor=0, normtype=1)
     if isinstance(Data, ttb.sptensor):
         xsubs = Data.subs
         A = Model.factor_matrices[0][xsubs[:, 0], :]
